@@ -131,7 +131,32 @@ pub fn string_as_bytes(s: &std::string::String) -> (r: &[u8]) ensures r@ == str_
 pub open spec fn enc_operands(a: Seq<Object>, i: int) -> Seq<u8> decreases i {
     if i <= 0 || i > a.len() { Seq::<u8>::empty() } else { enc_operands(a, i - 1) + enc_obj(a[i - 1]) + seq![0x20u8] }
 }
-pub open spec fn enc_operation(op: Operation) -> Seq<u8> { enc_operands(op.operands@, op.operands@.len() as int) + str_bytes(op.operator) }
+pub open spec fn BI() -> Seq<u8> { seq![0x42u8, 0x49u8] }
+// an inline image as Content::decode represents it: operator BI with one stream operand (7.8.4.4 / 8.9.7)
+pub open spec fn is_inline_image(op: Operation) -> bool { str_bytes(op.operator) == BI() && op.operands@.len() == 1 && op.operands@[0] is Stream }
+pub open spec fn enc_bi_entries(e: Seq<(Vec<u8>, Object)>, i: int) -> Seq<u8> decreases i {
+    if i <= 0 || i > e.len() { Seq::<u8>::empty() }
+    else { enc_bi_entries(e, i - 1) + (if e[i - 1].0@ == K_LENGTH() { Seq::<u8>::empty() } else { seq![0x20u8] + enc_name(e[i - 1].0@) + seq![0x20u8] + enc_obj(e[i - 1].1) }) }
+}
+pub open spec fn enc_inline(st: Stream) -> Seq<u8> {
+    BI() + enc_bi_entries(st.dict.entries@, st.dict.entries@.len() as int) + seq![0x20u8, 0x49u8, 0x44u8, 0x20u8] + st.content@ + seq![0x20u8, 0x45u8, 0x49u8]
+}
+pub open spec fn enc_operation(op: Operation) -> Seq<u8> {
+    if is_inline_image(op) { enc_inline(op.operands@[0]->Stream_0) }
+    else { enc_operands(op.operands@, op.operands@.len() as int) + str_bytes(op.operator) }
+}
+#[verifier::external_body]
+pub fn string_is(s: &std::string::String, b: &[u8]) -> (r: bool) ensures r == (str_bytes(*s) == b@) { unimplemented!() }
+#[verifier::external_body]
+pub fn vec_is(v: &Vec<u8>, b: &[u8]) -> (r: bool) ensures r == (v@ == b@) { unimplemented!() }
+#[verifier::external_body]
+pub fn clone_vec_u8(v: &Vec<u8>) -> (r: Vec<u8>) ensures r@ == v@ { unimplemented!() }
+// R10: `if let [Object::Stream(x)] = v.as_slice()`
+pub fn single_stream_operand(v: &Vec<Object>) -> (r: Option<&Stream>)
+    ensures r is Some <==> (v@.len() == 1 && v@[0] is Stream), r is Some ==> *r->Some_0 == v@[0]->Stream_0
+{
+    if v.len() == 1 { match &v[0] { Object::Stream(s) => Some(s), _ => None } } else { None }
+}
 pub open spec fn enc_content(ops: Seq<Operation>, i: int) -> Seq<u8> decreases i {
     if i <= 0 || i > ops.len() { Seq::<u8>::empty() } else { enc_content(ops, i - 1) + sep_nl(i - 1 > 0) + enc_operation(ops[i - 1]) }
 }
